@@ -17,6 +17,85 @@ REPO = os.environ.get("PCSTATIC_REPO", "/repo")
 PKG = "phyclone"
 
 
+class _Degenerate(ast.NodeTransformer):
+    """A generator function is modelled as the function that returns the list of what it yields:
+
+        def g(...):                      def g(...):
+            ...                              __yielded = []
+            yield e                 ==>      __yielded.append(e)
+            yield from it                    __yielded.extend(it)
+            return                           return __yielded
+                                             return __yielded
+
+    `for x in g(...)`, `list(g(...))`, `sum(g(...))`, `zip(g(...), ...)` then read as they do over a list.  The model
+    is eager: effects of the generator body are ordered before those of the consumer's loop body (DESIGN 0.8).
+    A generator that receives values (`x = yield e`) is left alone; the interpreters reject it as unsupported."""
+
+    ACC = "__yielded"
+
+    @staticmethod
+    def _own(fn):
+        out, todo = [], list(fn.body)
+        while todo:
+            n = todo.pop()
+            out.append(n)
+            for c in ast.iter_child_nodes(n):
+                if not isinstance(c, (ast.FunctionDef, ast.AsyncFunctionDef, ast.Lambda, ast.ClassDef)):
+                    todo.append(c)
+        return out
+
+    def visit_FunctionDef(self, fn):
+        self.generic_visit(fn)  # nested definitions first
+        own = self._own(fn)
+        ys = [n for n in own if isinstance(n, (ast.Yield, ast.YieldFrom))]
+        if not ys:
+            return fn
+        as_stmt = {id(n.value) for n in own if isinstance(n, ast.Expr) and isinstance(n.value, (ast.Yield, ast.YieldFrom))}
+        if any(id(y) not in as_stmt for y in ys):
+            return fn
+        acc = self.ACC
+
+        def rewrite(stmts):
+            out = []
+            for st in stmts:
+                if isinstance(st, ast.Expr) and isinstance(st.value, ast.Yield):
+                    v = st.value.value or ast.Constant(value=None)
+                    call = ast.Call(func=ast.Attribute(value=ast.Name(id=acc, ctx=ast.Load()), attr="append", ctx=ast.Load()), args=[v], keywords=[])
+                    out.append(ast.copy_location(ast.Expr(value=call), st))
+                elif isinstance(st, ast.Expr) and isinstance(st.value, ast.YieldFrom):
+                    call = ast.Call(func=ast.Attribute(value=ast.Name(id=acc, ctx=ast.Load()), attr="extend", ctx=ast.Load()), args=[st.value.value], keywords=[])
+                    out.append(ast.copy_location(ast.Expr(value=call), st))
+                elif isinstance(st, ast.Return):
+                    out.append(ast.copy_location(ast.Return(value=ast.Name(id=acc, ctx=ast.Load())), st))
+                elif isinstance(st, (ast.FunctionDef, ast.AsyncFunctionDef, ast.ClassDef)):
+                    out.append(st)
+                else:
+                    for field in ("body", "orelse", "finalbody"):
+                        if isinstance(getattr(st, field, None), list) and getattr(st, field) and isinstance(getattr(st, field)[0], ast.stmt):
+                            setattr(st, field, rewrite(getattr(st, field)))
+                    for h in getattr(st, "handlers", []) or []:
+                        h.body = rewrite(h.body)
+                    for c in getattr(st, "cases", []) or []:
+                        c.body = rewrite(c.body)
+                    out.append(st)
+            return out
+
+        first = fn.body[0]
+        init = ast.copy_location(ast.Assign(targets=[ast.Name(id=acc, ctx=ast.Store())], value=ast.List(elts=[], ctx=ast.Load())), first)
+        last = fn.body[-1]
+        fin = ast.Return(value=ast.Name(id=acc, ctx=ast.Load()))
+        fin.lineno = fin.end_lineno = getattr(last, "end_lineno", last.lineno)
+        fin.col_offset = fin.end_col_offset = 0
+        doc = []
+        body = list(fn.body)
+        if isinstance(first, ast.Expr) and isinstance(first.value, ast.Constant) and isinstance(first.value.value, str):
+            doc, body = [first], body[1:]
+        fn.body = doc + [init] + rewrite(body) + [fin]
+        fn._was_generator = True
+        ast.fix_missing_locations(fn)
+        return fn
+
+
 class Module:
     def __init__(self, name, path, source):
         self.name = name
@@ -26,6 +105,8 @@ class Module:
             self.tree = ast.parse(source, filename=path)
         except SyntaxError as e:  # the build would reject it too
             raise AnalysisError("module %s does not parse: %s" % (path, e))
+        if "yield" in source:
+            self.tree = _Degenerate().visit(self.tree)
         self.imports = {}  # local name -> dotted target
         self._collect_imports()
 
@@ -285,6 +366,65 @@ class Program:
         for c in self.mro(ci):
             if name in c.properties and kind in c.properties[name]:
                 return c.properties[name][kind]
+        return None
+
+    # ------------------------------------------------------------------ names newer than the rules
+    _REF = None
+
+    @classmethod
+    def _reference(cls):
+        if cls._REF is None:
+            import json
+
+            path = os.path.join(os.path.dirname(os.path.abspath(__file__)), "reference_names.json")
+            try:
+                with open(path) as fh:
+                    d = json.load(fh)
+            except OSError:
+                raise AnalysisError("pcstatic/reference_names.json is missing (tools/gen_reference_names.py)")
+            cls._REF = (frozenset(d["functions"]), frozenset(d["classes"]))
+        return cls._REF
+
+    def is_new_function(self, fi):
+        """Introduced after the rules were written (no function of that name in the reference tree): an extracted
+        helper.  No specification can mention it, so the interpreters look inside it."""
+        fns, classes = self._reference()
+        if fi.cls is not None and fi.cls.name not in classes:
+            return True
+        return fi.name not in fns
+
+    def is_new_class(self, ci):
+        return ci.name not in self._reference()[1]
+
+    def record_fields(self, name, module, depth=0):
+        """Field names if `name`, as seen from `module`, is a record type: `X = namedtuple("X", [...])`, a
+        `typing.NamedTuple` subclass, or a `@dataclass` without a hand-written __init__.  None otherwise."""
+        if depth > 4:
+            return None
+        for st in module.tree.body:
+            if isinstance(st, ast.Assign) and len(st.targets) == 1 and isinstance(st.targets[0], ast.Name) and st.targets[0].id == name and isinstance(st.value, ast.Call):
+                fn = ast.unparse(st.value.func)
+                if fn.split(".")[-1] == "namedtuple" and len(st.value.args) >= 2:
+                    f = st.value.args[1]
+                    if isinstance(f, ast.Constant) and isinstance(f.value, str):
+                        return f.value.replace(",", " ").split()
+                    if isinstance(f, (ast.List, ast.Tuple)) and all(isinstance(e, ast.Constant) and isinstance(e.value, str) for e in f.elts):
+                        return [e.value for e in f.elts]
+                return None
+            if isinstance(st, ast.ClassDef) and st.name == name:
+                decos = [ast.unparse(d.func if isinstance(d, ast.Call) else d).split(".")[-1] for d in st.decorator_list]
+                bases = [ast.unparse(b).split(".")[-1] for b in st.bases]
+                if "dataclass" in decos or "NamedTuple" in bases:
+                    if any(isinstance(x, ast.FunctionDef) and x.name in ("__init__", "__post_init__", "__new__") for x in st.body):
+                        return None
+                    return [x.target.id for x in st.body if isinstance(x, ast.AnnAssign) and isinstance(x.target, ast.Name)]
+                return None
+        tgt = module.imports.get(name)
+        if tgt and "." in tgt:
+            mod, _, nm = tgt.rpartition(".")
+            m = self.modules.get(mod)
+            if m is not None:
+                return self.record_fields(nm, m, depth + 1)
         return None
 
     def subclasses(self, ci):
